@@ -126,6 +126,12 @@ def opOf (j : Json) : R Op := do
       | some l => pure l
       | none => pure []
     pure (.override u vv)
+  | "configure" =>
+    let u ← updOf (← getObj j "u")
+    let vv ← match ← optField j "vv" intsOf with
+      | some l => pure l
+      | none => pure []
+    pure (.configure u vv (← valOf (← getObj j "v")))
   | o => throw s!"char: unknown op {o}"
 
 def exnOfName (s : String) : Exn :=
@@ -180,6 +186,19 @@ def extOf (sr : SrTable) (fr : FrTable) : Ext where
     | some s => s
     | none => ['?']
 
+def jprops (p : Props) : Json :=
+  let opt (k : String) (o : Option Val) : List (String × Json) :=
+    match o with | some v => [(k, jval v)] | none => []
+  Json.mkObj (
+    [("fmt", Json.str (match p.fmt with
+      | .bool => "bool" | .int => "int" | .float => "float" | .string => "string"
+      | .array => "array" | .dictionary => "dictionary" | .uint8 => "uint8" | .uint16 => "uint16"
+      | .uint32 => "uint32" | .uint64 => "uint64" | .data => "data" | .tlv8 => "tlv8"))]
+    ++ opt "min" p.minV ++ opt "max" p.maxV ++ opt "step" p.minStep
+    ++ (if p.vv.isEmpty then [] else [("vv", Json.arr (p.vv.map jint).toArray)])
+    ++ (match p.maxLen with | some n => [("maxLen", Json.num n)] | none => [])
+    ++ [("readable", Json.bool p.readable)])
+
 def jevent : Event → Json
   | .notify v => Json.arr #["notify", jval v]
   | .callback v => Json.arr #["callback", jval v]
@@ -188,6 +207,7 @@ def jres (r : Res) : Json :=
   Json.mkObj [
     ("exn", match r.exn with | some e => Json.str (exnName e) | none => Json.null),
     ("value", jval r.st.value),
+    ("props", jprops r.st.props),
     ("hap", match reported r.st with | some v => jval v | none => Json.str "absent"),
     ("out", Json.arr (r.out.map jevent).toArray)]
 
@@ -208,7 +228,7 @@ def handle (j : Json) : R Json := do
     | .error e => pure (Json.mkObj [("init", Json.mkObj [("err", Json.str (exnName e))]), ("steps", Json.arr #[])])
     | .ok st =>
       pure (Json.mkObj [
-        ("init", Json.mkObj [("ok", jval st.value),
+        ("init", Json.mkObj [("ok", jval st.value), ("props", jprops st.props),
                              ("hap", match reported st with | some v => jval v | none => Json.str "absent")]),
         ("steps", Json.arr (runAll E cfg st ops).toArray)])
   | "consistent" =>
